@@ -1135,8 +1135,13 @@ def k22_solution_agreement(core, rep):
         if isinstance(n, ast.Assign) and n.value is r[0] and isinstance(n.targets[0], ast.Name):
             yvar = n.targets[0].id
     pf = [c for c in calls_in(fp.node) if call_name(c) == 'PDFFiller']
-    ok = len(pf) == 1 and len(pf[0].args) >= 2 and unparse(pf[0].args[1]) == f'forms.available_forms[{yvar}]'
-    rep.ob('K22a', 'that-years-forms-interpret-it', ok, 'fill-pdfs does not hand the forms of the recorded tax year to the filler', _w(fp))
+    # the variable holds the recorded year on every path: the read from the solution is its only definition
+    other_defs = [x for x in ast.walk(fp.node) if isinstance(x, (ast.Assign, ast.AugAssign, ast.AnnAssign, ast.NamedExpr, ast.For))
+                  and any(isinstance(t, ast.Name) and t.id == yvar for t in ast.walk(x.targets[0] if isinstance(x, ast.Assign) else x.target))
+                  and not (isinstance(x, ast.Assign) and x.value is r[0])]
+    ok = len(pf) == 1 and len(pf[0].args) >= 2 and unparse(pf[0].args[1]) == f'forms.available_forms[{yvar}]' and not other_defs
+    rep.ob('K22a', 'that-years-forms-interpret-it', ok,
+           'fill-pdfs does not hand the forms of the recorded tax year to the filler' + (f' (the year variable is also set by `{unparse(other_defs[0], 60)}`)' if other_defs else ''), _w(fp, other_defs[0] if other_defs else None))
     rm = [c for c in calls_in(fp.node) if call_name(c) == 'remove_section']
     ok = len(rm) == 1 and const_of(rm[0].args[0], fp.node) == sr
     rep.ob('K22a', 'metadata-section-removed-before-filling', ok, 'the metadata section is not removed before the filler interprets sections as forms', _w(fp))
@@ -1264,9 +1269,10 @@ def k23_filler(core, rep):
     rep.ob('K23b', 'only-forms-that-need-filing', ok, 'fill() does not restrict self.forms to those whose needs_filing(values) holds', _w(fl))
     lst = flt[0].targets[0].id if ok and isinstance(flt[0].targets[0], ast.Name) else None
     sorts = [c for c in calls_in(fl.node) if call_name(c) == 'sort' and attr_text(c.func.value) == lst]
-    ok2 = len(sorts) == 1 and any(k.arg == 'key' and 'jurisdiction' in unparse(k.value) and 'sequence_no' in unparse(k.value)
-                                  and unparse(k.value).index('jurisdiction') < unparse(k.value).index('sequence_no') for k in sorts[0].keywords)
-    rep.ob('K23b', 'ordered-by-jurisdiction-then-sequence', ok2, 'fill() does not order the forms by (jurisdiction, sequence_no)', _w(fl))
+    ok2 = len(sorts) == 1 and any(k.arg == 'key' and _is_order_key(k.value) for k in sorts[0].keywords) \
+        and not any(k.arg == 'reverse' and not _const(k.value, False) for k in sorts[0].keywords)
+    rep.ob('K23b', 'ordered-by-jurisdiction-then-sequence', ok2,
+           'fill() does not order the forms by the pair (jurisdiction, sequence_no) itself - a converted or wrapped key (for instance the sequence number as text) gives another order', _w(fl))
     loops = [n for n in ast.walk(fl.node) if isinstance(n, ast.For) and any(call_name(c) == '_fill_form' for b in n.body for c in calls_in(b))]
     ok3 = len(loops) == 1 and unparse(loops[0].iter) == lst and not any(isinstance(x, ast.For) for b in loops[0].body for x in ast.walk(b))
     rep.ob('K23b', 'each-selected-form-filled-once', ok3, 'the loop that fills forms does not run once over the filtered, sorted list', _w(fl))
@@ -1952,3 +1958,15 @@ def k29_prompt_quotes_the_waiters(core, rep):
                        f'the prompt can name a form copy or line that never read the input', _w(f, x))
     if n < 1:
         raise AnalysisError('prompt callback: no per-waiter text found (anchor vanished)')
+
+
+def _is_order_key(k):
+    """lambda f: (f.jurisdiction, f.sequence_no)   or   attrgetter('jurisdiction', 'sequence_no')"""
+    if isinstance(k, ast.Lambda) and len(k.args.args) == 1 and isinstance(k.body, ast.Tuple) and len(k.body.elts) == 2:
+        p = k.args.args[0].arg
+        a, b = k.body.elts
+        return all(isinstance(x, ast.Attribute) and isinstance(x.value, ast.Name) and x.value.id == p for x in (a, b)) \
+            and a.attr == 'jurisdiction' and b.attr == 'sequence_no'
+    if isinstance(k, ast.Call) and call_name(k) == 'attrgetter' and [getattr(x, 'value', None) for x in k.args] == ['jurisdiction', 'sequence_no']:
+        return True
+    return False
